@@ -551,6 +551,8 @@ func c19Pipeline(dir string, args []string, printed string, pr *printedReq, raw 
 	if err := json.Unmarshal([]byte(resp.Body), &rj); err != nil {
 		panic(fmt.Sprintf("server response is not JSON: %v", err))
 	}
+	// the output file already exists, from an earlier and longer run: it must be replaced, not overwritten in place
+	_ = os.WriteFile(filepath.Join(dir, "out.csv"), []byte(strings.Repeat("stale-peer-of-an-earlier-run,0.015625\n", 60)), 0o644)
 	_, stderr, err := runCLI(dir, append(args, "-H", srv.URL+"/basic/v1", "-o", "out.csv")...)
 	if err != nil {
 		panic(fmt.Sprintf("eigentrust exited abnormally: %v\n%s", err, tail(stderr, 1200)))
